@@ -37,6 +37,11 @@ Layers (DESIGN.md section 3 / 5-C11):
      list anonymizers in ascending / descending / shuffled order, through two
      different overlapping lists and through FileAnonymizer - every answer must
      be the single-number anonymizer's (asMap[salt][n]).
+  8. command line: netconan.netconan.main in a fresh interpreter, -n LIST and a
+     configuration file as-numbers=LIST, every block end point (0 included)
+     listed alone / with another number / after it, on a small file with the
+     number standalone and embedded - judged against single-number library
+     FileAnonymizers with the same salt.
 Every recorded call is an event judged by TLC against the R part of
 spec/AsNum.tla via spec/AsNumTrace.tla; nothing is decided in Python.
 """
@@ -223,6 +228,7 @@ def materialize(traces, ck=None):
         if k % 2:
             batches[hs].reverse()
     if batches:
+        os.environ["ASN_SCRATCH"] = tlc.subdir("asn_cli")      # scratch files of command-line runs
         res = run_children(batches)
         for jid, evs in res.items():
             ti, si = map(int, jid.split("."))
@@ -656,6 +662,39 @@ def gen_collisions(r, thorough, stats):
     return traces
 
 
+CLI_VALUES = [0, 1, 64511, 64512, 65534, 65535, 65536, 4199999999, 4200000000, 4294967294, 4294967295]
+
+
+def gen_cli(r, thorough):
+    """The command-line entry point (the list arrives as ONE comma separated string and is split by main):
+    every block end point listed alone, before and after another number, through -n and through a
+    configuration file; the replacements must be those of single-number library FileAnonymizers."""
+    traces = []
+    salts = [SALTS[1]] + ([SALTS[2], ("with-comma-and-space", "salt, with comma")] if thorough else [])
+    for slabel, salt in salts:
+        for v in CLI_VALUES:
+            n = str(v)
+            partner = "65001"
+            text = ("router bgp {n}\n neighbor peer remote-as {n}\nas{n}_ ({n}) x{n}: {n}9 9{n} 7{n}7\n{n}\n"
+                    " bgp confederation peers {p} {n}\nvlan 7{p}\n{n}").format(n=n, p=partner)
+            variants = [("alone", "cli", [n]), ("before-another", "cli", [n, partner]), ("after-another", "cli", [partner, n]),
+                        ("alone", "clicfg", [n]), ("before-another", "clicfg", [n, partner])]
+            if not thorough:
+                variants = variants[:3] + (variants[3:] if v in (0, 64512, 4294967295) else [])
+            for vname, kind, lst in variants:
+                via = "-n" if kind == "cli" else "config-file"
+                lab = "n=%s list=%s via=%s salt=%s" % (nlabel(n), vname, via, slabel)
+                t = T("command-line", n=v, variant=vname, via=via, salt_class=slabel)
+                t.seg(("child", "0"))
+                for k, m in enumerate(dict.fromkeys(lst)):
+                    t.new(1 + k, "file", salt, [m], "single-number library FileAnonymizer (reference) " + lab)
+                    t.line(1 + k, "router bgp " + m + "\n", "form=config single-number library FileAnonymizer %s api=file" % lab)
+                t._op(["new", 9, kind, salt, lst], "command line main() %s api=main" % lab)
+                t.line(9, text, "form=file(standalone+embedded) command line main() %s api=main" % lab)
+                traces.append(t)
+    return traces
+
+
 IP_FORMS = [
     ("rewritten-v4 neighbor", "neighbor {a} remote-as {n}\n"),
     ("rewritten-v4 indented", " neighbor {b} remote-as {n}\n"),
@@ -944,6 +983,7 @@ def build_traces(pid, tier):
     traces += gen_lines(rng(pid, "lines"), thorough)
     traces += gen_nosalt(rng(pid, "nosalt"), thorough)
     traces += gen_with_ip(rng(pid, "with-ip"), thorough)
+    traces += gen_cli(rng(pid, "cli"), thorough)
     COLLISION_STATS[:] = []
     traces += gen_collisions(rng(pid, "collisions"), thorough, COLLISION_STATS)
     traces += gen_special(rng(pid, "special"), thorough)
@@ -961,6 +1001,8 @@ def run(pid, tier):
         "is the salt in use; for that family the direct AsNumberAnonymizer(list, S) shares FileAnonymizer's salt name space",
         "runs with the address stage on: address tokens (white-space delimited, optional '/len' and trailing ',' ';', accepted by ipaddress.ip_address) of input and output "
         "are projected to one placeholder code before TLC judges the line; listed numbers there have 5+ digits so they cannot be part of an address",
+        "command line: main(['-i', file, '-o', file, '-s', salt, '-n', 'n1,n2'] or ['-c', cfg with as-numbers=n1,n2]) run in a fresh interpreter; "
+        "a run that returns without writing the output file is the event outcome NoOutput (never accepted for a valid list)",
         "TLC/SANY and the text -> character-code projection are trusted; the md5 seam and the md5(salt+number) prediction only steer coverage (drift, never verdicts)",
         "don't-care (accepted either way, not generated): spellings with leading zeros, digit '.' digit (AS-dot), non-ASCII numeric characters, "
         "list entries that are not canonical decimals in 0..4294967295, anonymize(n) for an unlisted n, an empty list refused with ValueError at construction; "
